@@ -9,7 +9,8 @@ ID = "C04"
 RULE = (
     "grammar-generated legal text spliced with hostile fragments (Unicode spaces, non-ASCII digits, NUL/C0, lone "
     "brackets, long digit runs, section signs glued to words, placeholder pages) and character mutations, plus raw "
-    "hostile-alphabet strings; each evaluated under {ref, ac, hs} x remove_ambiguous x {unchecked, skip, wrap}. "
+    "hostile-alphabet strings, plus an enumerated family of long inputs (37 units x 40 ... 3,000 repetitions - thorough "
+    "40,000 - x 2 prefixes x 4 suffixes: beyond every scan window and recursion depth); each evaluated under {ref, ac, hs} x remove_ambiguous x {unchecked, skip, wrap}. "
     "Oracle: no exception escapes get_citations / resolve_citations / annotate_citations; exceptions are bucketed by "
     "(type, innermost eyecite frame). Non-trivial: the text contains a hostile (non-ASCII or control) character or a "
     "placeholder page and yields >= 1 citation, or an id. citation was resolved against an antecedent; "
@@ -31,7 +32,15 @@ def evaluate(case):
     from eyecite.models import IdCitation
 
     res = Res()
-    text = case["text"]
+    if case.get("kind") == "long":
+        # long inputs are described compactly: pre + unit * reps + post
+        if not (isinstance(case.get("reps"), int) and 0 <= case["reps"] <= 200000):
+            res.label("out-of-domain")
+            return res
+        text = case["pre"] + case["unit"] * case["reps"] + case["post"]
+        res.label("long-input")
+    else:
+        text = case["text"]
     which = case.get("tokenizer", "ac")
     ra = bool(case.get("remove_ambiguous"))
     res.label("tokenizer:" + which, "remove_ambiguous:" + str(ra))
@@ -65,8 +74,28 @@ def evaluate(case):
         res.label("hostile-char")
     if id_resolved:
         res.label("id-resolved")
-    res.nontrivial = bool((cites and hostile) or id_resolved)
+    res.nontrivial = bool((cites and hostile) or id_resolved or (case.get("kind") == "long" and len(text) > 300))
     return res
+
+
+LONG_UNITS = ["(", ")", "( a", "Id. at 3. ", "Bar, supra, at 5. ", "1 U.S. 1, ", ", 2", "v. ", "\u00a7 ", "\u00a7\u00a7", "_", "___ ", "\n", " ",
+              "\u00a0", "1 ", "a", "Bar ", "[", "<i>", "</i>", "See ", "at ", "1 U.S. at 3; ", "\u00e9", "(1999) ", "n. 5, ", "& ", "* ", "-", "2d ",
+              "In re ", "\u201c", "12 F.2d 34 (quoting ", ") (", "; id.", "\t"]
+
+
+def _long_items(tier):
+    """Repetition beyond every internal window (28 tokens, 300 characters, recursion depth, block sizes)."""
+    reps = [40, 400, 3000] if tier == "quick" else [40, 400, 3000, 40000]
+    out = []
+    for ui, unit in enumerate(LONG_UNITS):
+        for pre in ("", "Foo v. Bar, 1 U.S. 1 "):
+            for post in ("", " 1 U.S. 1 (1999)", ", supra.", " Id. at 5"):
+                for r in reps:
+                    if r * len(unit) > 120000:
+                        continue
+                    which = "hs" if (ui + r) % 5 == 0 else "ac"
+                    out.append({"kind": "long", "pre": pre, "unit": unit, "reps": r, "post": post, "tokenizer": which, "remove_ambiguous": False})
+    return out
 
 
 _HOST_ALPHA = legal.HOSTILE + legal.PUNCT + ["1", "2", "9", " ", " ", "U.S.", "Id.", "supra", "v.", "at", "<", ">", "<i>", "</i>", "&",
@@ -106,7 +135,7 @@ def _cases(which, ra):
 
 def phases(tier):
     n_ac, n_other = (6000, 1500) if tier == "quick" else (300000, 60000)
-    out = []
+    out = [Phase("long-inputs", "enum", items=lambda: _long_items(tier), exhaustive=True, distinct=True, chunk=4)]
     for which, n in (("ac", n_ac), ("hs", n_other), ("ref", n_other)):
         for ra in (False, True):
             out.append(Phase(f"docs-{which}-{'ra' if ra else 'plain'}", "gen", strategy=(lambda w=which, r=ra: _cases(w, r)), n=n // 2))
